@@ -28,7 +28,7 @@ Section Static.
   Variable gnames : list name.          (* the global variables *)
   Variable gw : list (list name).       (* per function: the globals it (or a callee) may write *)
 
-  Definition fn (j : nat) : fundecl := nth j funs (mkFun [] [] None).
+  Definition fn (j : nat) : fundecl := nth j funs (mkFun [] [] None false).
 
   Definition kind_of (c : ctx) (x : name) : kind :=
     match c with
